@@ -223,6 +223,16 @@ def r2_ascii_safe_write(ctx, rep, R='C17.R2'):
               'serialised tree', key='write:content', func=fi.qualname, where=ctx.where(fi, fi.node))
 
 
+def _creates(c, tag):
+    """``Element(tag)`` or ``SubElement(parent, tag)``"""
+    if not isinstance(c, ast.Call):
+        return False
+    nm = (dotted(c.func) or '').split('.')[-1]
+    i = {'Element': 0, 'SubElement': 1}.get(nm)
+    return i is not None and len(c.args) > i and isinstance(c.args[i], ast.Constant) and \
+        c.args[i].value == tag
+
+
 def r3_counters(ctx, rep, R='C17.R3'):
     rep.rule(R, 'counters agree with elements: the tests attribute is the length of the list the '
              'testcase loop iterates; _record increments failures / errors exactly for the records '
@@ -241,16 +251,12 @@ def r3_counters(ctx, rep, R='C17.R3'):
     if okl:
         lp = loops[0]
         tc = lp.target.id
-        mk = [c for c in ast.walk(lp) if isinstance(c, ast.Call) and
-              (dotted(c.func) or '').endswith('Element') and c.args and
-              isinstance(c.args[0], ast.Constant) and c.args[0].value == 'testcase']
+        mk = [c for c in ast.walk(lp) if _creates(c, 'testcase')]
         okl = len(mk) == 1 and not path_literals(mk[0], lp) and \
             not any(isinstance(x, (ast.Break, ast.Continue)) for x in ast.walk(lp))
         # failure / error children under the truthiness of the record's own field
         for kind in ('failure', 'error'):
-            el = [c for c in ast.walk(lp) if isinstance(c, ast.Call) and
-                  (dotted(c.func) or '').endswith('Element') and c.args and
-                  isinstance(c.args[0], ast.Constant) and c.args[0].value == kind]
+            el = [c for c in ast.walk(lp) if _creates(c, kind)]
             good = len(el) == 1
             if good:
                 lits = path_literals(el[0], lp)
@@ -259,6 +265,46 @@ def r3_counters(ctx, rep, R='C17.R3'):
             rep.check(good, R, '<%s> child created iff testCase.%s' % (kind, kind),
                       'the <%s> element is not created exactly for records with a %s' % (kind, kind),
                       key='child:' + kind, func=fi.qualname, where=ctx.where(fi, lp))
+    # ... and the created elements are part of the tree that is serialised: testcase under the root
+    # handed to tostring(), failure / error under the testcase element, attached where created
+    made, parent = {}, {}
+    for n in ast.walk(fi.node):
+        if isinstance(n, ast.Assign) and len(n.targets) == 1 and isinstance(n.targets[0], ast.Name):
+            for tag in ('testsuite', 'testcase', 'failure', 'error'):
+                if _creates(n.value, tag):
+                    made[tag] = (n.targets[0].id, n.value)
+                    if (dotted(n.value.func) or '').endswith('SubElement') and \
+                            isinstance(n.value.args[0], ast.Name):
+                        parent[tag] = (n.value.args[0].id, n.value)
+        if isinstance(n, ast.Expr) and isinstance(n.value, ast.Call):
+            for tag in ('testcase', 'failure', 'error'):        # bare SubElement(parent, tag)
+                if _creates(n.value, tag) and (dotted(n.value.func) or '').endswith('SubElement') and \
+                        isinstance(n.value.args[0], ast.Name):
+                    made.setdefault(tag, (None, n.value))
+                    parent[tag] = (n.value.args[0].id, n.value)
+    for c in own_calls(fi.node):
+        if isinstance(c.func, ast.Attribute) and c.func.attr == 'append' and len(c.args) == 1 and \
+                isinstance(c.args[0], ast.Name) and isinstance(c.func.value, ast.Name):
+            for tag, (v, mk_) in made.items():
+                if v == c.args[0].id:
+                    parent[tag] = (c.func.value.id, c)
+    roots = [c.args[0].id for c in own_calls(fi.node)
+             if (dotted(c.func) or '').endswith('tostring') and c.args and isinstance(c.args[0], ast.Name)]
+    okt = len(roots) == 1 and made.get('testsuite', (None,))[0] == roots[0]
+    why = 'the serialised root is %s' % roots
+    if okt:
+        for tag, up in (('testcase', 'testsuite'), ('failure', 'testcase'), ('error', 'testcase')):
+            if tag not in made or tag not in parent or parent[tag][0] != made[up][0]:
+                okt, why = False, '<%s> is not attached to the <%s> element' % (tag, up)
+                break
+            lits_c = [(norm(e), p_) for e, p_ in path_literals(made[tag][1], fi.node)]
+            lits_a = [(norm(e), p_) for e, p_ in path_literals(parent[tag][1], fi.node)]
+            if lits_c != lits_a:
+                okt, why = False, '<%s> is attached under another condition than it is created' % tag
+                break
+    rep.check(okt, R, 'testcase / failure / error elements are attached to the serialised tree',
+              '%s: the counters would disagree with the elements of the report' % why,
+              key='attach', func=fi.qualname, where=ctx.where(fi, fi.node))
     rep.check(okl, R, 'one <testcase> per record of suite.testCases, unconditionally',
               'the testcase loop does not create exactly one element per record', key='testcase:loop',
               func=fi.qualname, where=ctx.where(fi, fi.node))
